@@ -3,6 +3,7 @@ package main
 import (
 	"bufio"
 	"bytes"
+	"encoding/json"
 	"fmt"
 	"go/token"
 	"os"
@@ -254,7 +255,22 @@ func checkC15(c *Ctx, r *Report, tier string) {
 	}
 	defer os.RemoveAll(tmp)
 	bin := filepath.Join(tmp, "anndb-bin")
-	cmd := exec.Command("go", "build", "-o", bin, "./cmd/anndb")
+	args := []string{"build", "-o", bin}
+	if len(c.Overlay) > 0 {
+		// the sensitivity suite analyses variants through an overlay: hand the same overlay to the build
+		repl := map[string]string{}
+		for path, content := range c.Overlay {
+			f := filepath.Join(tmp, fmt.Sprintf("ov%d_%s", len(repl), filepath.Base(path)))
+			os.WriteFile(f, content, 0o644)
+			repl[path] = f
+		}
+		js, _ := json.Marshal(map[string]interface{}{"Replace": repl})
+		ovf := filepath.Join(tmp, "overlay.json")
+		os.WriteFile(ovf, js, 0o644)
+		args = append(args, "-overlay", ovf)
+	}
+	args = append(args, "./cmd/anndb")
+	cmd := exec.Command("go", args...)
 	cmd.Dir = c.Repo
 	cmd.Env = append(os.Environ(), "GOFLAGS=-mod=mod", "GOPROXY=off", "GOSUMDB=off", "GOTOOLCHAIN=local", "GOWORK=off")
 	if out, err := cmd.CombinedOutput(); err != nil {
